@@ -201,8 +201,8 @@ def check_two_sandboxes(ctx):
 
 def check_stale_distance(ctx):
     ctx.eng.max_strlen = 64
-    n = ctx.sym("n", 32)
-    ctx.assume(n != 0xFFFFFFFF)        # 2^32 destroy cycles bring the 32-bit counter itself back: outside the claim
+    n = ctx.sym("n", 64)
+    ctx.assume(n != 0xFFFFFFFFFFFFFFFF)        # 2^64 destroy cycles bring the 64-bit counter itself back: outside the claim
     paths = ctx.run("k_cb_stale_any_distance", [n])
     for q in paths:
         if q.status != "ret":
